@@ -23,14 +23,15 @@ from collections import Counter
 from .core import Prov, op_place, short, norm
 
 SWALLOW = {
-    "Result::ok", "Result::err", "Result::unwrap_or", "Result::unwrap_or_default", "Result::unwrap_or_else",
+    "Result::unwrap_or", "Result::unwrap_or_default", "Result::unwrap_or_else",
     "Result::map_or", "Result::map_or_else", "Result::or", "Result::or_else",
     "Result::iter", "Result::into_iter", "Result::unwrap_or_unchecked",
     "mem::drop", "mem::forget",
 }
 # outcome tests: the Result is looked at iff the bool they return is used (a branch on `x.is_ok()` handles both
 # outcomes like a `match` does; `let _ = x.is_ok();` does not)
-TESTS = {"Result::is_ok", "Result::is_err", "Result::is_ok_and", "Result::is_err_and"}
+# (`.ok()` / `.err()` keep the failure as `None`: a conversion, not a discard - unless the Option is then left unread)
+TESTS = {"Result::is_ok", "Result::is_err", "Result::is_ok_and", "Result::is_err_and", "Result::ok", "Result::err"}
 
 
 def _strip(ty):
